@@ -105,6 +105,10 @@ def check(ctx):
     a2 = find("this_chunksize_tolerance = chunksize_tolerance ** (1 / len(last_autos))", ac)
     ok = len(a1) == 1 and len(a2) == 1 and bool(find("max_chunk_size = proposed * this_chunksize_tolerance", ac)) and bool(find("proposed = median_chunks[a] * this_multiplier", ac))
     ctx.ob("SIB.auto-chunks.per-dimension-root", ac, "per dimension: multiplier ** (1/n) and chunksize_tolerance ** (1/n) with n = number of auto dimensions", ok, "" if ok else "the tolerance is applied in full to every auto dimension: with n auto dimensions the block may exceed the byte limit by tolerance**n")
+    fsr = rc.func("find_split_rechunk")
+    acc = [n for n in ast.walk(fsr) if isinstance(n, ast.If) and "len(c) >= len(old_chunks[dim])" in unparse(n.test)]
+    ok = len(acc) == 1 and "max(c) <= max(old_chunks[dim])" in unparse(acc[0].test)
+    ctx.ob("ALG.split-plan.accept", fsr, "a split step is accepted only if it has at least as many chunks AND no wider chunk than before", ok, "" if ok else "wider intermediate chunks are accepted: the following merge pass can fail (AssertionError / ZeroDivisionError) instead of reaching the requested chunks")
 
 
 VARIANTS = [
